@@ -28,13 +28,14 @@ import ssl as _ssl  # noqa: E402
 
 from nauyaca.client.session import GeminiClient  # noqa: E402
 
-REAL = {"u1": "gemini://h1.ex/a", "u2": "gemini://h1.ex/a?x=1", "u3": "gemini://h2.ex:1966/a", "u4": "gemini://h1.ex:1966/a",
+# u2 differs from u1 only in an (empty) query: "a?" is the answer to a prompt with empty input, another URL than "a" (RFC 3986 6.2.3)
+REAL = {"u1": "gemini://h1.ex/a", "u2": "gemini://h1.ex/a?", "u3": "gemini://h2.ex:1966/a", "u4": "gemini://h1.ex:1966/a",
         "u5": "gemini://h3.ex/deep/er", "u6": "gemini://h2.ex:1966/a/", "u7": "gemini://h3.ex/"}
 INV = {v: k for k, v in REAL.items()}
 # other spellings of the same URLs (same normal form): a server may write its redirect targets any of these ways
-VARIANTS = {"u1": ["gemini://h1.ex:1965/a", "gemini://h1.ex/a?", "gemini://H1.EX/a", "GEMINI://h1.ex/a"], "u2": ["gemini://h1.ex:1965/a?x=1", "Gemini://h1.ex/a?x=1"],
-            "u3": ["gemini://H2.ex:1966/a", "gEmInI://h2.ex:1966/a"], "u4": ["gemini://h1.EX:1966/a?"], "u5": ["gemini://h3.ex:1965/deep/er", "GEMINI://h3.ex/deep/er"],
-            "u6": ["gemini://h2.ex:1966/a/?"], "u7": ["gemini://h3.ex", "gemini://h3.ex:1965", "gemini://h3.ex?"]}
+VARIANTS = {"u1": ["gemini://h1.ex:1965/a", "gemini://H1.EX/a", "GEMINI://h1.ex/a"], "u2": ["gemini://h1.ex:1965/a?", "Gemini://h1.ex/a?"],
+            "u3": ["gemini://H2.ex:1966/a", "gEmInI://h2.ex:1966/a"], "u4": ["gemini://h1.EX:1966/a"], "u5": ["gemini://h3.ex:1965/deep/er", "GEMINI://h3.ex/deep/er"],
+            "u6": ["gemini://H2.ex:1966/a/"], "u7": ["gemini://h3.ex", "gemini://h3.ex:1965"]}
 
 
 def spelling(rnd):
@@ -375,7 +376,7 @@ def main(pid="C16", rep=None, finish=True):
                 net.close()
         rep.add("overlapping_fetch_pairs", ov)
         rep.add("traces_validated_against_impl", m)
-        rep.assume("peers are scripted transports; URLs are opaque distinct strings in the model (u2 differs from u1 only in the query, "
+        rep.assume("peers are scripted transports; URLs are opaque distinct strings in the model (u2 differs from u1 only in an empty query, "
                    "u4 only in the port, u6 only in a trailing slash)")
         rep.set("exhaustive", thorough)
         if finish:
